@@ -50,6 +50,7 @@ def run_gix(ctx, binary, repo, wq, variants=VARIANTS, chunk=3000):
             if "got" not in r:
                 raise ToolError("executor failed outside of a walk: %s" % json.dumps(r)[:300])
             flat.extend(r["got"]["results"])
+            ctx.cov["evaluations"] += sum(len(x) for x in r["got"]["results"]) - 1     # one evaluation per walk
         res[variant] = flat
     return res
 
